@@ -920,3 +920,41 @@ def r_exactly_one(cx):
               "+1 steps: a branch sets the count instead of incrementing it, and a definition with several sub-commands "
               "passes the exactly-one test" % mir.show(bad[0], maxd=2)[:40], cx.where(t["span"]))
     cx.count("R-EXACTLY-ONE", "count_tests", n)
+
+
+@rule("R-ARRAY-COPY-ORDER", ["C11"])
+def r_array_copy_order(cx):
+    """adapt keeps its permutation and its multipliers as series and unpacks them into fixed arrays - `[post[0] as usize,
+    .., post[3] as usize]`, `[1. / mult[0], .., 1. / mult[3]]` - at apply time (and packs them at construction). These are
+    plain element-wise copies: position k of such an array is computed from element k of the source, for every k. An
+    index typo (`1. / mult[2]` in position 3) gives one axis the sign and unit factor of another."""
+    n = 0
+    for name in sorted(cx.f.lib["fns"]):
+        if "::tests::" in name or not name.startswith(("inner_op::adapt::", "inner_op::axisswap::", "inner_op::unitconvert::")):
+            continue
+        f = cx.f.fn(name)
+        k = 0
+        for bb, i, st in f.all_stmts():
+            if not (st["k"] == "assign" and st["rv"]["k"] == "agg"):
+                continue
+            v = f.rvalue(st["rv"], (bb, i))
+            if not (v[0] == "agg" and v[1] == "array" and len(v[2]) >= 3):
+                continue
+            reads = []
+            for e in v[2]:
+                r = set()
+                mir.walk(e, lambda y: (r.add((mir.strip_refs(y[1]), y[2][1])) if y[0] == "proj" and isinstance(y[2], tuple) and
+                                       y[2][0] == "elem" and len(y[2]) == 2 and isinstance(y[2][1], int) else None) or True)
+                reads.append(r)
+            bases = set(b for r in reads for b, _ in r)
+            if len(bases) != 1 or not all(reads):
+                continue
+            n += 1
+            bad = [pos for pos, r in enumerate(reads) if {ix for _, ix in r} != {pos}]
+            cx.ob("R-ARRAY-COPY-ORDER", "%s/array%d" % (name, k), not bad,
+                  "%s: position k of the unpacked array is computed from element k" % name if not bad else
+                  "%s: position %d of the array is computed from element %s of the source series: that axis gets the "
+                  "multiplier (sign, unit factor) or the position of another" % (
+                      name, bad[0], sorted(ix for _, ix in reads[bad[0]])), cx.where(st.get("span")))
+            k += 1
+    cx.count("R-ARRAY-COPY-ORDER", "arrays", n)
